@@ -38,6 +38,9 @@ FIRST_MISS = {
  "C20-r4m3": "public fields bin / hop / frames assigned between chunks (SetBin / SetHop / SetFrames actions)",
  "C06-r4m2": "(covered from the agent's report, before intake) provided Iterator methods of the draining iterator as queue actions",
  "C09-r4m2": "(covered from the agent's report, before intake) the free function dasp_graph::process driven alternately with the method",
+ "C12-r4m2": "finite sources under a fork (frames after the end are equilibrium)",
+ "C12-r4m3": "`drop` events: one branch dropped while leading / lagging, the survivor judged from where it was",
+ "C13-r4m3": "`drop_bus` event: the Bus handle dropped while outputs lag",
  "C09-r3m1": "nodes without buffers anywhere in random graphs (counted per incoming edge when they are inputs)",
 }
 rows = []
